@@ -242,6 +242,7 @@ int main(int argc, char **argv)
 {
 	vh_args_t a;
 	vh_parse_args(argc, argv, &a);
+	vh_alloc_install();	/* foreign frees and writes after free, also inside the uninstrumented JSON library */
 	memset(bigstr, 'L', 65536); bigstr[65536] = 0;
 	if (a.shard == 0 && a.start == 0) printf("[\"ALPHA\",%d]\n", NALPHA);
 	/* the alphabet itself, so that the monitor can replay unlogged prefixes: ["A", index, kind, type, name, value, replace] */
